@@ -270,7 +270,7 @@ def main(argv):
             if hit:
                 sweep_hits = [{'file': '(CLI scenario) ' + rec0['input']['scenario'], 'width': 0, 'tab': 0, 'why': rec0['input']['oracle_says'], 'scenario': rec0['input']}]
     for h in sweep_hits[:3]:
-        failures.append(runner.Failure('sweep', h['file'], 'sweep:%s' % os.path.basename(h['file']), [pid], 'oracle of %s fails on the real code: %s' % (pid, h['why']), None, None, json.dumps(h)))
+        failures.append(runner.Failure('sweep', h['file'], 'sweep:%s' % re.sub(r'[^A-Za-z0-9_.()-]+', '_', os.path.basename(h['file'])), [pid], 'oracle of %s fails on the real code: %s' % (pid, h['why']), None, None, json.dumps(h)))
 
     # classify failures
     violations = []
